@@ -26,10 +26,15 @@
     reason (`Why`): DeadlineExceeded or Canceled.
   * the context `run` hands to `Shutdown` is built by `shutdownContext` (shutdown.go) from the
     configuration: a positive shutdown timeout gives a deadline, the timeout 0 ("no limit") none
-    (`cfgNoLimit`); a non-empty `ShutdownSignals` makes it cancellable — a SECOND shutdown signal
-    during the drain cancels it (`cfgSignals`).  Both are parameters of the initial state
-    (`initCfg`); no action changes them.  Whatever the reason for which `Shutdown` returned an error,
-    `run` goes on to `Close`.
+    (`cfgNoLimit`); a non-empty `ShutdownSignals` subscribes it (`signal.NotifyContext`) to exactly
+    the signals of that SET (`cfgSignals`, `SCall.sigs`) — one of THEM delivered to the process during
+    the drain (a SECOND shutdown signal) cancels it; with an empty set `NotifyContext` is not called
+    at all (called without signals it would subscribe to EVERY signal: `Variant.emptyMeansAll`).  Any
+    signal may be delivered to the process at any time (`sig n k`: signal `n` reaches the relay of the
+    context of call `k`); one the context is not subscribed to changes nothing.  Nobody else can
+    cancel run's context (its cancel function is deferred to after the return).  Both are parameters
+    of the initial state (`initCfg`); no action changes them.  Whatever the reason for which
+    `Shutdown` returned an error, `run` goes on to `Close`.
   * a successful CONNECT is answered with the fixed bytes `HTTP/1.1 200 OK\r\n\r\n`
     (`writeConnectOKResponse`), which carry no `Connection` field, and keeps its connection
     (`writeResponse`: `res.Close = false` for the 2xx of a CONNECT, closing or not): `tunnel` goes on
@@ -89,11 +94,15 @@ inductive Why where
   | deadline | cancel
   deriving DecidableEq, Repr, Inhabited, Hashable
 
+/-- a signal number (SIGUSR1 = 10, SIGUSR2 = 12, SIGURG = 23, SIGWINCH = 28, …) -/
+abbrev Sig := Nat
+
 /-- one call of `Shutdown(ctx)`: its goroutine and its context -/
 structure SCall where
   pc : SPC := .idle
   noLimit : Bool := false       -- the context has no deadline: it never expires
-  cancellable : Bool := false   -- somebody can cancel the context (a second shutdown signal; the caller's cancel func)
+  cancellable : Bool := false   -- the caller of `Shutdown` can cancel the context (it holds a cancel func and uses it)
+  sigs : List Sig := []         -- `signal.NotifyContext`: the signals whose delivery to the process cancels the context
   done : Option Why := none     -- `ctx.Done()` is closed, and why
   -- ghost (never read by a guard)
   sawClosing : Bool := false    -- `closing` was already set when this call came to `closeOnce.Do`
@@ -294,14 +303,14 @@ structure State where
   runShut : CallId := 0                 -- the call of `Shutdown` made by `run`
   runClose : CallId := 0                -- the call of `Close` made by `run`
   cfgNoLimit : Bool := false            -- configuration: shutdown timeout 0, `shutdownContext` adds no deadline
-  cfgSignals : Bool := false            -- configuration: `ShutdownSignals` non-empty, a second signal cancels the drain
+  cfgSignals : List Sig := []           -- configuration: `ShutdownSignals`, the SET of signals whose second delivery cancels the drain
   sweepLeft : List ConnId := []         -- `Close` (the one holding the mutex): connections of its `range p.conns` not yet closed
   -- ghost (never read by a guard of the code; `api` only separates the two ways of driving the proxy)
   api : Bool := false                   -- `Shutdown` / `Close` were called directly (not by `run`)
   everClosed : Bool := false            -- some `Close` has started its walk over the map
 
 /-- the initial state of a proxy with the given shutdown configuration -/
-def initCfg (noLimit signals : Bool) : State := { cfgNoLimit := noLimit, cfgSignals := signals }
+def initCfg (noLimit : Bool) (signals : List Sig) : State := { cfgNoLimit := noLimit, cfgSignals := signals }
 
 def init : State := {}
 
@@ -330,6 +339,8 @@ inductive Action where
   | closeCall (k : CallId) | closeRet (k : CallId)
   -- the context of call `k` of `Shutdown`
   | ctxExpire (k : CallId) | ctxCancel (k : CallId)
+  -- signal `n` is delivered to the process and reaches the relay (`signal.NotifyContext`) of the context of call `k`
+  | sig (n : Sig) (k : CallId)
   | cancel | runRet
   -- Serve
   | serveCheck | accept (c : ConnId)
@@ -427,9 +438,14 @@ def step (s : State) : Action → Option State
     if (s.shuts k).pc ≠ .idle ∧ (s.shuts k).noLimit = false then some (setShut s k (ctxDone (s.shuts k) .deadline))
     else none
   | .ctxCancel k =>
-    -- … and only a context somebody can cancel is ever cancelled
+    -- … and only a context its caller can cancel is ever cancelled by its caller
     if (s.shuts k).pc ≠ .idle ∧ (s.shuts k).cancellable = true then some (setShut s k (ctxDone (s.shuts k) .cancel))
     else none
+  | .sig n k =>
+    -- any signal can be delivered at any time; it cancels the context only if the context exists and
+    -- is subscribed to THAT signal — otherwise nothing changes
+    if (s.shuts k).pc ≠ .idle ∧ n ∈ (s.shuts k).sigs then some (setShut s k (ctxDone (s.shuts k) .cancel))
+    else some s
   | .cancel => if s.runner = .idle ∧ s.api = false then some { s with runner := .cancelled } else none
   | .runRet => if s.runner = .finished then some s else none
   | .serveCheck =>
@@ -484,7 +500,8 @@ def step (s : State) : Action → Option State
   | .runShutdown k =>
     -- `ctx, cancel := shutdownContext(cfg)`; `hp.proxy.Shutdown(ctx)`
     if s.runner = .listenersClosed ∧ (s.shuts k).pc = .idle then
-      some { setShut s k { pc := .waitingForLock, noLimit := s.cfgNoLimit, cancellable := s.cfgSignals } with
+      some { setShut s k { pc := .waitingForLock, noLimit := s.cfgNoLimit, cancellable := false,
+                           sigs := s.cfgSignals } with
              runner := .inShutdown, runShut := k }
     else none
   | .runAfterShutdown k =>
@@ -506,16 +523,16 @@ def run (s : State) : List Action → Option State
 
 /-- reachable by some interleaving from an initial state (any shutdown configuration) -/
 inductive Reachable : State → Prop where
-  | start (noLimit signals : Bool) : Reachable (initCfg noLimit signals)
+  | start (noLimit : Bool) (signals : List Sig) : Reachable (initCfg noLimit signals)
   | step {s s' : State} (a : Action) : Reachable s → step s a = some s' → Reachable s'
 
-theorem Reachable.init : Reachable init := Reachable.start false false
+theorem Reachable.init : Reachable init := Reachable.start false []
 
-theorem Reachable.initNoLimit : Reachable initNoLimit := Reachable.start true false
+theorem Reachable.initNoLimit : Reachable initNoLimit := Reachable.start true []
 
 /-! ## Variants that are NOT the code
 
-  Two plausible rewrites of `Shutdown` and of `run`, kept to show that the theorems tell them from the
+  Plausible rewrites of `Shutdown`, of `run` and of `shutdownContext`, kept to show that the theorems tell them from the
   code (`Theorems/C11.lean`, witnesses). -/
 
 structure Variant where
@@ -525,6 +542,9 @@ structure Variant where
   /-- `run` calls `Close` only when `Shutdown` returned `DeadlineExceeded` (not when the drain was
       ended by a second signal, `Canceled`) -/
   closeOnDeadlineOnly : Bool := false
+  /-- `shutdownContext` "simplified": `signal.NotifyContext(ctx, cfg.ShutdownSignals...)` is called
+      unconditionally — with an EMPTY set that subscribes run's context to EVERY signal -/
+  emptyMeansAll : Bool := false
   deriving DecidableEq, Repr
 
 def stepV (v : Variant) (s : State) : Action → Option State
@@ -537,6 +557,11 @@ def stepV (v : Variant) (s : State) : Action → Option State
         (s.shuts s.runShut).done = some .cancel then
       some { s with runner := .finished }
     else step s (.runAfterShutdown k)
+  | .sig n k =>
+    if v.emptyMeansAll = true ∧ (s.shuts k).pc ≠ .idle ∧ s.runner ≠ .idle ∧ k = s.runShut ∧
+        (s.shuts k).sigs = [] then
+      some (setShut s k (ctxDone (s.shuts k) .cancel))
+    else step s (.sig n k)
   | a => step s a
 
 def runV (v : Variant) (s : State) : List Action → Option State
